@@ -63,13 +63,8 @@ def run(chk, want=("enc", "dec")):
                                   "decoded": d if e2 is None else None, "error": repr(e1 or e2) if (e1 or e2) else None})
     chk.log(f"{len(cases)} cases from {len(schemas)} schemas; implementation-side failures: {len(fails)}")
     chk.coverage["traces_validated_against_impl"] = len(cases)
-    mism = []
-    if broken is None or chk.corr_buildable(["Corr/Serde.vo"]):
-        try:
-            mism = common.run_cases("Serde", cases)
-        except common.CoqError as e:
-            broken = f"correspondence could not be evaluated: {e}"
-    report(chk, fails, mism, meta, broken, "Corr.Serde.check_case (model Py.PySerde)", "Props/C01.v")
+    mism, translated, broken = serde_run.run_serde_cases(chk, cases, broken)
+    report(chk, fails, mism, meta, broken, "Corr.Serde.check_case (model Py.PySerde)", "Props/C01.v", translated=translated)
     chk.assumptions += [
         "_Buffer is modelled as the bit string written so far (push_word appends, read_word consumes); struct.pack/unpack as the identity on IEEE-754 bit patterns (little-endian host)",
         "values are embedded type-directed by harness/to_coq.py; dicts are reordered to wire order by Corr.Serde.canon",
@@ -77,11 +72,19 @@ def run(chk, want=("enc", "dec")):
     ]
 
 
-def report(chk, fails, mism, meta, broken, corr_name, props_file):
+def report(chk, fails, mism, meta, broken, corr_name, props_file, translated=()):
     fails.sort(key=lambda f: len(json.dumps(f, default=repr)))
     for f in fails[:3]:
         chk.violation(f)
     if fails:
+        return
+    if translated and not mism:
+        # the model agrees with the implementation, the translated source does not: the translator or its run-time library
+        # misreads Python (the tie is unsound there), not the property
+        for i in list(translated)[:3]:
+            text, name, v, kind, b, obs = meta[i]
+            chk.violation({"kind": "translated-source-vs-implementation", "correspondence": "Corr.SerdeGen.check_translated (gen/PyDispatch.v run in Coq)",
+                           "schema": text, "struct": name, "value": v, "op": kind, "bytes": b, "observed": obs}, no_failing_input=True)
         return
     if mism:
         for i in mism[:3]:
